@@ -6,6 +6,7 @@ package verifrt
 
 import (
 	"fmt"
+	"reflect"
 	"sort"
 	"sync/atomic"
 	"unsafe"
@@ -121,4 +122,79 @@ func MapOrder[K comparable, V any](m map[K]V, site int) []K {
 		out[i] = keys[j]
 	}
 	return out
+}
+
+// ---- package-level state of the instrumented packages ----
+// The instrumenter generates, per package, an init() that registers a pointer
+// to every package-level variable. The harness can then restore the state the
+// variables had when SnapshotGlobals was called (lazily built caches become
+// cold again), so that every explored execution starts from the same state.
+
+type global struct {
+	name    string
+	ptr     reflect.Value // pointer to the variable
+	saved   reflect.Value
+	hasSave bool
+}
+
+var globals []*global
+
+// RegisterGlobal is called from generated init() functions.
+func RegisterGlobal[T any](name string, p *T) {
+	globals = append(globals, &global{name: name, ptr: reflect.ValueOf(p)})
+}
+
+func shallowClone(v reflect.Value) reflect.Value {
+	switch v.Kind() {
+	case reflect.Map:
+		if v.IsNil() {
+			return v
+		}
+		c := reflect.MakeMapWithSize(v.Type(), v.Len())
+		it := v.MapRange()
+		for it.Next() {
+			c.SetMapIndex(it.Key(), it.Value())
+		}
+		return c
+	case reflect.Slice:
+		if v.IsNil() {
+			return v
+		}
+		c := reflect.MakeSlice(v.Type(), v.Len(), v.Len())
+		reflect.Copy(c, v)
+		return c
+	}
+	return v
+}
+
+// SnapshotGlobals records the current value of every registered variable (maps and slices are copied one level deep).
+func SnapshotGlobals() {
+	for _, g := range globals {
+		g.saved = shallowClone(g.ptr.Elem())
+		// keep a private copy of non-reference kinds
+		if k := g.saved.Kind(); k != reflect.Map && k != reflect.Slice {
+			c := reflect.New(g.saved.Type()).Elem()
+			c.Set(g.saved)
+			g.saved = c
+		}
+		g.hasSave = true
+	}
+}
+
+// RestoreGlobals puts every registered variable back to its snapshot.
+func RestoreGlobals() {
+	for _, g := range globals {
+		if g.hasSave {
+			g.ptr.Elem().Set(shallowClone(g.saved))
+		}
+	}
+}
+
+// GlobalPointers returns name -> pointer to the variable, for every registered variable.
+func GlobalPointers() map[string]any {
+	m := map[string]any{}
+	for _, g := range globals {
+		m[g.name] = g.ptr.Interface()
+	}
+	return m
 }
